@@ -133,6 +133,21 @@ Proof. exact reshaping_never_assigns_reference. Qed.
 Print Assumptions C08_reshaping_never_assigns_reference.
 Close Scope string_scope.
 
+(** ---- the bodies of the Weaver methods, REGENERATED from weaver.py as terms of the glue language (Gen/WeaverGlue.v:
+     weaver_methods), mean — under the interpreter of Model/GlueSem.v — what the hand-written [step] and query functions say ---- *)
+From TW Require Import Model.GlueSem Gen.WeaverGlue Proofs.GlueProofs.
+Open Scope string_scope.
+(** the ten domain methods, as regenerated, apply one and the same package function with the same arguments to the
+    working series and to the reference series: after the call both are what [step] says *)
+Theorem C08_glue_domain : forall s o xs ys, is_domain o = true ->
+  let r := call_method weaver_methods (Some o) (op_method o) (params_of o) s xs ys in
+  wx (g_s (fst r)) = wx (fst (step s o)) /\ wy (g_s (fst r)) = wy (fst (step s o)) /\
+  wrx (g_s (fst r)) = wrx (fst (step s o)) /\ wry (g_s (fst r)) = wry (fst (step s o)) /\
+  outcome_res (snd r) = snd (step s o).
+Proof. exact glue_domain. Qed.
+Print Assumptions C08_glue_domain.
+Close Scope string_scope.
+
 Example C08_example :
   match init (Some [qz 0; qz 1; qz 2; qz 4]) [qz 1; qz 3; qz 3; qz 0] with
   | Ok s0 =>
